@@ -372,6 +372,7 @@ type ExecOpts struct {
 	MaxPaths    int
 	Watch       types.Object // optional: record the expression this local holds when a target executes
 	Record      bool         // record, per complete path, the ordered target hits (ExecResult.Traces)
+	NoTrack     map[types.Object]bool // locals whose value is not tracked in the path store (they keep their name)
 }
 
 // Hit is one target execution on a path.
@@ -397,6 +398,7 @@ func (r ExecResult) Tri(i int) Tri { return Decide3(r.May[i], r.Must[i]) }
 // Stops block or at a back edge to Header; back edges to other loop headers end the path silently
 // (the zero-iteration path through that header is explored separately).
 func (g *Graph) Exec(from Loc, targets []Loc, leaf Leaf, o ExecOpts) ExecResult {
+	opts := o
 	info := g.Fn.Info()
 	res := ExecResult{May: make([]bool, len(targets)), Must: make([]bool, len(targets)), Vals: make([]map[string]bool, len(targets))}
 	if o.MaxPaths == 0 {
@@ -456,6 +458,9 @@ func (g *Graph) Exec(from Loc, targets []Loc, leaf Leaf, o ExecOpts) ExecResult 
 				}
 			}
 			g.storeEffect(b.Nodes[i], st)
+			for o := range opts.NoTrack {
+				delete(st, o)
+			}
 		}
 		if len(b.Succs) == 0 {
 			if !(o.IgnorePanic && panicExit[b]) {
